@@ -142,3 +142,38 @@ def tail_pair(rng, la, lb, u, nprim=None):
     d = d / np.linalg.norm(d) * R
     ca = [core.snap(rng.uniform(-1, 1), 8) for _ in range(3)]
     return sa.copy(center=ca), sb.copy(center=[float(x) for x in np.array(ca) + d])
+
+
+# ---- nearly coincident centres: distinct centres 1e-7 .. 1e-3 bohr apart, near the origin or ~15 bohr away from it -----------
+# (displaced copies of an atom in finite-difference geometries, ghost functions almost on an atom: a "same centre" shortcut
+#  decided with a floating-point tolerance would bite here)
+NEAR_LADDER = [1e-7, 1e-6, 1e-5, 1e-4, 1e-3]
+
+
+def near_pair(rng, la, lb, sep, far=False, nprim=None):
+    sa = rand_shell(rng, la, [], nprim=nprim or rng.randint(1, 2), nseg=rng.randint(1, 2), exp_lo=0.3, exp_hi=30.0)
+    sb = rand_shell(rng, lb, [], nprim=nprim or rng.randint(1, 2), nseg=rng.randint(1, 2), exp_lo=0.3, exp_hi=30.0)
+    if far:
+        ca = [core.snap(rng.choice([-1, 1]) * rng.uniform(8, 20), 6) for _ in range(3)]
+    else:
+        ca = [core.snap(rng.uniform(-1.5, 1.5), 8) for _ in range(3)]
+    d = [rng.choice([-1, 1]) * sep * rng.uniform(0.3, 1.0) for _ in range(3)]
+    return sa.copy(center=ca), sb.copy(center=[float(a + x) for a, x in zip(ca, d)])
+
+
+def near_cases(run, lmax=4):
+    """(la, lb, sep, far) selections: quick = 10 pairs of both parities, thorough = every pair x the whole ladder x near/far"""
+    import itertools
+    out = []
+    k = 0
+    for la, lb in itertools.product(range(lmax + 1), repeat=2):
+        if run.tier == "thorough":
+            for sep in NEAR_LADDER:
+                out.append((la, lb, sep, False))
+                out.append((la, lb, sep, True))
+        elif (la * (lmax + 1) + lb) % 3 == 0 or (la, lb) in ((0, 1), (1, 1), (0, 2)):
+            out.append((la, lb, NEAR_LADDER[1 + k % 3], k % 2 == 0))
+            out.append((la, lb, NEAR_LADDER[4 - k % 3], k % 2 == 1))
+            k += 1
+    return out
+
